@@ -163,14 +163,15 @@ def check_run_core(ctx):
             if "trap_unhandled_errors" in names:
                 ti = names.index("trap_unhandled_errors")
                 for fx in ("logfix", "errobs"):
-                    if f"{fx}.__enter__" not in names[:ti] or f"{fx}.__exit__" not in names[ti:]:
+                    # (a fixture is used either as a context manager or through setUp() / cleanUp())
+                    if not ({f"{fx}.__enter__", f"{fx}.setUp"} & set(names[:ti])) or not ({f"{fx}.__exit__", f"{fx}.cleanUp"} & set(names[ti:])):
                         problems.add(f"the reactor is spun outside the {'log fixture' if fx == 'logfix' else 'error observer'}: observers would not be restored / errors not captured on timeout or interrupt")
                 if log[ti][1] != (("bound", "spinner", "run"), TIMEOUT, RUN_DEFERRED):
                     problems.add("the run is not spun as trap_unhandled_errors(spinner.run, self._timeout, self._run_deferred)")
                 if "errobs.flush_logged_errors" in names and names.index("errobs.flush_logged_errors") < ti:
                     problems.add("logged errors are flushed before the test ran")
             for fx in ("logfix", "errobs"):
-                if names.count(f"{fx}.__enter__") != names.count(f"{fx}.__exit__"):
+                if names.count(f"{fx}.__enter__") + names.count(f"{fx}.setUp") != names.count(f"{fx}.__exit__") + names.count(f"{fx}.cleanUp"):
                     problems.add(f"a path leaves _run_core with the {fx} fixture still entered")
         rule = "R-SPINNER-ERRORS-HANDLED" if run in ("timeout", "interrupted") else "R-SINGLE-SUCCESS"
         ctx.check(rule, f"_run_core: {label}", core, not problems, f"with {label}: " + "; ".join(sorted(problems)), examined=len(rs), construct=f"{Q}._run_core::{label}")
@@ -435,7 +436,13 @@ def check_observers(ctx):
         for r in res:
             log = r.state.get("ev.calls", ())
             acted = [e[1][0] for e in log if e[0] == f"pub.{act}" and e[3] == "ok" and e[1]]
-            cleanups = [e[1] for e in log if e[0] == "self.addCleanup"]
+
+            def flat(args):
+                # addCleanup(f, *a) and addCleanup(partial(f, *a)) register the same call
+                if args and isinstance(args[0], tuple) and args[0][:1] == ("partial",) and not args[0][3]:
+                    return (args[0][1],) + tuple(args[0][2]) + tuple(args[1:])
+                return tuple(args)
+            cleanups = [flat(e[1]) for e in log if e[0] == "self.addCleanup"]
             for o in acted:
                 if (("bound", "pub", undo), o) not in cleanups:
                     problems.add(f"an observer is {setup} without a cleanup that calls {undo} for it being registered" + (" (on the path where a later one raises)" if r.kind == "exc" else "")
